@@ -476,6 +476,108 @@ theorem certSolve_sound (nb : ℕ) (A : Mat) (b β : Array ℚ) (r : ℕ)
     exact isFitB_sound nb _ _ _ hchk
   · exact absurd h (by simp)
 
+/-! ## Polynomial reproduction (1-D, order ≤ degree + 1) -/
+
+/-- Polynomial reproduction in one dimension, in the range where the clause can hold
+(`order ≤ 3`, `order ≤ degree + 1`): every polynomial `q₀ + q₁x + q₂x²` of degree below the
+penalty order, sampled on any grid inside the domain, is the spline with coefficients
+`c_l = Σ_{j<ord} a_j l^j`, and these coefficients solve the penalised normal equations for EVERY
+penalty `λ` and EVERY weight vector.  (Moments of the cardinal B-spline:
+`Σ_j j·N_p(u−j) = u−(p+1)/2`, `Σ_j j²·N_p(u−j) = (u−(p+1)/2)² + (p+1)/12`, all degrees.)
+Partial: orders `> 3` and the n-D tensor version are sampled only; for `order > degree+1`
+the clause is false (`C05.polynomial_counterexample`). -/
+theorem reproduces_polynomials_partial (dmin dmax : ℚ) (nseg p ord n : ℕ) (x w : ℕ → ℚ)
+    (lam q0 q1 q2 : ℚ) (hd : dmin < dmax) (hseg : 0 < nseg) (hp1 : 1 ≤ p)
+    (hord : ord ≤ 3) (hop : ord ≤ p + 1)
+    (hq2 : ord ≤ 2 → q2 = 0) (hq1 : ord ≤ 1 → q1 = 0) (hq0 : ord = 0 → q0 = 0)
+    (hx : ∀ i < n, dmin ≤ x i ∧ x i ≤ dmax) :
+    ∃ c : ℕ → ℚ,
+      (∀ i < n, fitted (nseg + p) (basisOn dmin dmax nseg p x) c i = q0 + q1 * x i + q2 * x i ^ 2) ∧
+      IsFit (nseg + p) (normalMat n w (basisOn dmin dmax nseg p x) (pen1 (nseg + p) ord lam))
+        (bwy n w (basisOn dmin dmax nseg p x) (fun i => q0 + q1 * x i + q2 * x i ^ 2)) c := by
+  have hp : p < nseg + p := by omega
+  have hh := dx_pos dmin dmax (nseg + p) p hp hd
+  set h := dx dmin dmax (nseg + p) p with hdef
+  set t0 := uniformKnot dmin dmax (nseg + p) p 0 with ht0
+  set s : ℚ := ((p : ℚ) + 1) / 2 with hs
+  set e : ℚ := ((p : ℚ) + 1) / 12 with he
+  set b2 : ℚ := q2 * h ^ 2 with hb2
+  set b1 : ℚ := q1 * h + 2 * q2 * t0 * h with hb1
+  set b0 : ℚ := q0 + q1 * t0 + q2 * t0 ^ 2 with hb0
+  set a1 : ℚ := b1 + 2 * b2 * s with ha1
+  set a0 : ℚ := b0 + a1 * s - b2 * s ^ 2 - b2 * e with ha0
+  set a : ℕ → ℚ := fun j => if j = 0 then a0 else if j = 1 then a1 else if j = 2 then b2 else 0 with ha
+  have hfitted : ∀ i < n, fitted (nseg + p) (basisOn dmin dmax nseg p x)
+      (fun l => ∑ j ∈ range ord, a j * (l : ℚ) ^ j) i = q0 + q1 * x i + q2 * x i ^ 2 := by
+    intro i hi
+    have hc : ∀ l : ℕ, (∑ j ∈ range ord, a j * (l : ℚ) ^ j) = a0 + a1 * l + b2 * (l : ℚ) ^ 2 := by
+      intro l
+      rcases (by omega : ord = 0 ∨ ord = 1 ∨ ord = 2 ∨ ord = 3) with h0 | h0 | h0 | h0
+      · have z2 := hq2 (by omega); have z1 := hq1 (by omega); have z0 := hq0 h0
+        subst h0
+        simp only [Finset.range_zero, Finset.sum_empty]
+        rw [ha0, ha1, hb0, hb1, hb2, z0, z1, z2]; ring
+      · have z2 := hq2 (by omega); have z1 := hq1 (by omega)
+        subst h0
+        simp only [Finset.sum_range_one, ha, if_true, pow_zero, mul_one]
+        have : a1 = 0 := by rw [ha1, hb1, hb2, z1, z2]; ring
+        rw [this, hb2, z2]; ring
+      · have z2 := hq2 (by omega)
+        subst h0
+        have hb : b2 = 0 := by rw [hb2, z2]; ring
+        rw [hb]
+        simp [Finset.sum_range_succ, ha]
+      · subst h0
+        simp [Finset.sum_range_succ, ha]
+    unfold fitted basisOn
+    have hsum : ∑ k ∈ range (nseg + p), bsplineBasis dmin dmax (nseg + p) p (x i) k
+          * (∑ j ∈ range ord, a j * (k : ℚ) ^ j)
+        = ∑ k ∈ range (nseg + p), (a0 + a1 * k + b2 * (k : ℚ) ^ 2)
+          * bsplineBasis dmin dmax (nseg + p) p (x i) k := by
+      apply Finset.sum_congr rfl; intro k _; rw [hc k]; ring
+    have hpb : b2 = 0 ∨ 2 ≤ p := by
+      by_cases h3 : ord ≤ 2
+      · left; rw [hb2, hq2 h3]; ring
+      · right; omega
+    rw [hsum, spline_moments dmin dmax (nseg + p) p hp1 hp hd (x i) (hx i hi).1 (hx i hi).2 a0 a1 b2 hpb]
+    have hxu : x i = t0 + h * ucoord dmin dmax (nseg + p) p (x i) := by
+      unfold ucoord; rw [← hdef, ← ht0]; field_simp; ring
+    set u := ucoord dmin dmax (nseg + p) p (x i) with hu
+    rw [hxu, ha0, ha1, hb0, hb1, hb2, ← hs, ← he]
+    ring
+  refine ⟨fun l => ∑ j ∈ range ord, a j * (l : ℚ) ^ j, hfitted, ?_⟩
+  · have hfit := reproduces_polynomial_coefficients (nseg + p) n ord lam w (basisOn dmin dmax nseg p x) a
+    intro k hk
+    rw [hfit k hk]
+    unfold bwy
+    apply Finset.sum_congr rfl; intro i hi
+    rw [hfitted i (mem_range.mp hi)]
+
+/-- … hence ANY solution of the normal equations returns the polynomial at every observation
+with positive weight, whatever the penalty (`w ≥ 0`, `λ ≥ 0`). -/
+theorem polynomial_reproduced_on_support (dmin dmax : ℚ) (nseg p ord n : ℕ) (x w : ℕ → ℚ)
+    (lam q0 q1 q2 : ℚ) (hd : dmin < dmax) (hseg : 0 < nseg) (hp1 : 1 ≤ p)
+    (hord : ord ≤ 3) (hop : ord ≤ p + 1)
+    (hq2 : ord ≤ 2 → q2 = 0) (hq1 : ord ≤ 1 → q1 = 0) (hq0 : ord = 0 → q0 = 0)
+    (hx : ∀ i < n, dmin ≤ x i ∧ x i ≤ dmax) (hw : ∀ i < n, 0 ≤ w i) (hl : 0 ≤ lam) (β : ℕ → ℚ)
+    (hβ : IsFit (nseg + p) (normalMat n w (basisOn dmin dmax nseg p x) (pen1 (nseg + p) ord lam))
+      (bwy n w (basisOn dmin dmax nseg p x) (fun i => q0 + q1 * x i + q2 * x i ^ 2)) β)
+    (i : ℕ) (hi : i < n) (hwi : 0 < w i) :
+    fitted (nseg + p) (basisOn dmin dmax nseg p x) β i = q0 + q1 * x i + q2 * x i ^ 2 := by
+  obtain ⟨c, hc1, hc2⟩ := reproduces_polynomials_partial dmin dmax nseg p ord n x w lam q0 q1 q2 hd hseg
+    hp1 hord hop hq2 hq1 hq0 hx
+  rw [← hc1 i hi]
+  exact yhat_unique_on_support (nseg + p) n w _ _ _ β c hw
+    (fun v => quadForm_pen1_nonneg (nseg + p) ord lam hl v) hβ hc2 i hi hwi
+
+example : ∃ c : ℕ → ℚ, ∀ i < 3, fitted (2 + 2) (basisOn 0 2 2 2 (fun i => (i : ℚ))) c i
+    = 1 + 2 * ((i : ℚ)) + 3 * ((i : ℚ)) ^ 2 := by
+  obtain ⟨c, h, _⟩ := reproduces_polynomials_partial 0 2 2 2 3 3 (fun i => (i : ℚ)) (fun _ => 1) 5 1 2 3
+    (by norm_num) (by norm_num) (by norm_num) (by norm_num) (by norm_num)
+    (by norm_num) (by norm_num) (by norm_num)
+    (by intro i hi; rcases (by omega : i = 0 ∨ i = 1 ∨ i = 2) with rfl | rfl | rfl <;> norm_num)
+  exact ⟨c, h⟩
+
 /-! ## Counterexamples -/
 
 /-- The polynomial clause of the property read literally (every degree `≥ 1`, every order `≤ 3`):
@@ -532,5 +634,33 @@ arithmetic returns the leverage `17`-form value of `C05.glam_hat_2d`, the pristi
 theorem pristine_hat_counterexample :
     rd (glamHatPristine witnessDims witnessX #[1]) 0 ≠ rd (glamHat witnessDims witnessX #[1]) 0 := by
   decide +kernel
+
+/-! ## Non-vacuity: the hypotheses of the theorems above are satisfiable on concrete objects -/
+
+/-- A 1 × 1 system: `B = (1)`, `w = 1`, `P = 0`: `A = 1`. -/
+example : IsFit 1 (normalMat 1 (fun _ => 1) (fun _ _ => 1) (fun _ _ => 0)) (fun _ => 1) (fun _ => 1) := by
+  intro k hk; simp [normalMat, bwb]
+
+example : 0 ≤ (1 : ℚ) * fitted 1 (fun _ _ => 1) (fun _ => 1) 0 ∧ (1 : ℚ) * fitted 1 (fun _ _ => 1) (fun _ => 1) 0 ≤ 1 :=
+  leverage_bounds 1 1 (fun _ => 1) (fun _ _ => 1) (fun _ _ => 0) (fun _ _ => by norm_num)
+    (fun v => by simp [quadForm]) 0 (by norm_num) (fun _ => 1) (by intro k hk; simp [normalMat, bwb])
+
+example : fitted 1 (fun _ _ => 1) (fun _ => 1) 0 = fitted 1 (fun _ _ => 1) (fun _ => 1) 0 :=
+  yhat_unique_on_support 1 1 (fun _ => 1) (fun _ _ => 1) (fun _ _ => 0) (fun _ => 1) (fun _ => 1) (fun _ => 1)
+    (fun _ _ => by norm_num) (fun v => by simp [quadForm])
+    (by intro k hk; simp [normalMat, bwb]) (by intro k hk; simp [normalMat, bwb]) 0 (by norm_num) (by norm_num)
+
+/-- Basis sizes 2 × 3 on a 1 × 1 grid (`witnessDims`): entry `((1,2),(0,1))` of `bwb_mat`. -/
+example : rd (glamBWB witnessDims #[1]) ((1 * 3 + 2) * (2 * 3) + (0 * 3 + 1))
+    = bwb (1 * 1) (rd #[1]) (kronB 3 1 (fun k _ => (k : ℚ) + 1) (fun k _ => if k = 0 then 1 else 0)) (1 * 3 + 2) (0 * 3 + 1) :=
+  glam_bwb_2d _ _ #[1] (by decide) (by decide) 1 0 2 1 (by decide) (by decide) (by decide) (by decide)
+
+example : rd (glamHat witnessDims witnessX #[1]) (0 * 1 + 0)
+    = hatDiag (2 * 3) (rd #[1]) (kronB 3 1 (fun k _ => (k : ℚ) + 1) (fun k _ => if k = 0 then 1 else 0))
+        (fun K L => rd witnessX (K * (2 * 3) + L)) (0 * 1 + 0) :=
+  glam_hat_2d _ _ witnessX #[1] (by decide) (by decide) 0 0 (by decide) (by decide)
+
+example : ∑ l ∈ range 5, diffMat 2 1 l * (∑ j ∈ range 2, (fun j => (j : ℚ) + 3) j * (l : ℚ) ^ j) = 0 :=
+  poly_coeffs_annihilated 5 2 _ 1 (by norm_num)
 
 end C05
